@@ -34,6 +34,8 @@ func cfgCacheReset() {}
 var defaultChecks = []string{"nil", "bounds", "div", "nilmap", "panic", "typeassert", "lock", "randarg", "copylen"}
 
 // verifyFunc generates the obligations of one function under one configuration value.
+var debugEvalExprs []string
+
 func (P *Prog) verifyFunc(fn *ssa.Function, c *Contract, cfgVal int, hasCfg bool) (res *FuncResult) {
 	resetGlobals()
 	res = &FuncResult{Fn: fn, Name: shortFuncName(fn), Contract: c}
@@ -80,7 +82,10 @@ func (P *Prog) verifyFunc(fn *ssa.Function, c *Contract, cfgVal int, hasCfg bool
 		x.params[fv.Name()] = v
 		x.noteLoaded(st, v)
 	}
-	// log starts at a symbolic position; contracts talk about ncalls() - old(ncalls())
+	// configuration coverage: the precondition implies that one of the configurations applies
+	if hasCfg && cfgVal == c.Config.Lo {
+		x.configCover(st, c, res.Name)
+	}
 	// configuration bindings
 	ce := x.newCEnv(st)
 	if hasCfg {
@@ -96,6 +101,15 @@ func (P *Prog) verifyFunc(fn *ssa.Function, c *Contract, cfgVal int, hasCfg bool
 		for _, a := range cf.Axioms {
 			ace := *ce
 			ace.pkg = P.spkgs[cf.Pkg].Pkg
+			// "len(G) == n" on a package-level slice binds the length to a literal
+			if a.Expr.Op == "==" && a.Expr.Args[1].Op == "int" && a.Expr.Args[0].Op == "call" && a.Expr.Args[0].Args[0].Name == "len" {
+				func() {
+					defer func() { recover() }()
+					x.bindConfigValue(st, &ace, ConfigBinding{a.Expr.Args[0], a.Expr.Args[1]})
+					x.oldHeap = st.heap.Clone()
+					ce.old = x.oldHeap
+				}()
+			}
 			x.assumeGlobal(x.evalClause(&ace, a, "axiom"))
 			x.trust("axiom (" + ace.pkg.Name() + "): " + a.Text)
 		}
@@ -124,12 +138,60 @@ func (P *Prog) verifyFunc(fn *ssa.Function, c *Contract, cfgVal int, hasCfg bool
 		}
 	}
 	x.cover(final, "return")
+	// watch list: parameters, results and any debugging expressions
+	for _, p := range fn.Params {
+		var fl []*Term
+		flatten(x.params[p.Name()], &fl)
+		for k, t := range fl {
+			x.watch = append(x.watch, WatchTerm{fmt.Sprintf("%s#%d", p.Name(), k), t})
+		}
+	}
+	for i, r := range results {
+		var fl []*Term
+		flatten(r, &fl)
+		for k, t := range fl {
+			x.watch = append(x.watch, WatchTerm{fmt.Sprintf("result%d#%d", i, k), t})
+		}
+	}
+	for _, es := range debugEvalExprs {
+		e, err := parseCExpr(es)
+		if err != nil {
+			panic(UnsupportedError{err.Error()})
+		}
+		var fl []*Term
+		flatten(post.eval(e), &fl)
+		for k, t := range fl {
+			x.watch = append(x.watch, WatchTerm{fmt.Sprintf("%s#%d", es, k), t})
+		}
+	}
 	for i, e := range c.Ensures {
 		lbl := e.Label
 		if lbl == "" {
 			lbl = fmt.Sprint(i)
 		}
-		x.oblige(final, "ensures", lbl, x.evalClause(post, e, res.Name), e.Text)
+		goal := x.evalClause(post, e, res.Name)
+		note := e.Text
+		for _, f := range P.findingsFor(res.Name) {
+			if f.Label != lbl || (f.Kind != "" && f.Kind != "ensures") {
+				continue
+			}
+			ex, err := parseCExpr(f.Except)
+			if err != nil {
+				panic(UnsupportedError{"known_findings.json: " + err.Error()})
+			}
+			exc := x.evalClause(post, &Clause{Expr: ex, Text: f.Except}, res.Name)
+			// is the recorded finding still there?  hyps /\ pc /\ except /\ not clause  satisfiable
+			name := fmt.Sprintf("%s/finding:%s", res.Name, lbl)
+			if x.hasCfg {
+				name += fmt.Sprintf("@%s=%d", x.cfgVar, x.cfgVal)
+			}
+			hy := append(append([]*Term{}, x.hyps...), final.pc, exc, Not(goal))
+			x.obls = append(x.obls, &Obligation{Name: name, Group: name, Func: res.Name, Kind: "finding", Hyps: hy, Cover: true, Props: c.Props,
+				Note: fmt.Sprintf("%s/%s: %s", res.Name, lbl, f.What), Watch: x.watch})
+			goal = Implies(Not(exc), goal)
+			note += "   [claimed outside the recorded finding: " + f.Except + "]"
+		}
+		x.oblige(final, "ensures", lbl, goal, note)
 	}
 	if c.HasMod {
 		x.frameCheck(final, ce, c)
@@ -198,6 +260,19 @@ func (x *Exec) bindConfigValue(st *State, ce *CEnv, b ConfigBinding) {
 		}
 		cfail("len() binding on unsupported value")
 	}
+	if b.LHS.Op == "ident" {
+		if _, isParam := x.params[b.LHS.Name]; isParam {
+			for _, p := range x.fn.Params {
+				if p.Name() == b.LHS.Name {
+					v := scalarVal(rhs, p.Type())
+					st.env[p] = v
+					x.params[b.LHS.Name] = v
+					ce.vars[b.LHS.Name] = v
+					return
+				}
+			}
+		}
+	}
 	pl := ce.lvaluePlace(b.LHS)
 	f := st.heap.Get(pl.Prefix, len(pl.Idx), SInt)
 	st.heap.Set(pl.Prefix, f.Store(pl.Idx, rhs))
@@ -263,4 +338,84 @@ func (x *Exec) frameCheck(final *State, ce *CEnv, c *Contract) {
 		goal := Or(append(excl, Eq(nf.Select(idx), of.Select(idx)))...)
 		x.oblige(final, "frame", name, goal, "only the modifies clause may change "+name)
 	}
+}
+
+// configCover: requires ==> OR over configuration values of (all bindings hold [and dense maps
+// contain every key of the range]). Evaluated without any binding; conjuncts of the precondition
+// that cannot be evaluated with a symbolic configuration are skipped (fewer hypotheses).
+func (x *Exec) configCover(st *State, c *Contract, fname string) {
+	save := x.hasCfg
+	x.hasCfg = false
+	ce := x.newCEnv(st)
+	ce.old = st.heap
+	var hyps []*Term
+	var collect func(e *CExpr)
+	collect = func(e *CExpr) {
+		if e.Op == "&&" {
+			collect(e.Args[0])
+			collect(e.Args[1])
+			return
+		}
+		// expand spec functions at the top level so that their conjuncts can be taken separately
+		if e.Op == "call" && e.Args[0].Op == "ident" {
+			if sf := x.P.spec(ce.pkg, e.Args[0].Name); sf != nil && len(sf.Params) == len(e.Args)-1 {
+				sub := *ce
+				sub.vars = map[string]Val{}
+				for k, v := range ce.vars {
+					sub.vars[k] = v
+				}
+				okAll := true
+				func() {
+					defer func() {
+						if r := recover(); r != nil {
+							okAll = false
+						}
+					}()
+					for i, p := range sf.Params {
+						sub.vars[p] = ce.eval(e.Args[i+1])
+					}
+				}()
+				if okAll {
+					saveCe := ce
+					ce = &sub
+					collect(sf.Body)
+					ce = saveCe
+					return
+				}
+			}
+		}
+		func() {
+			defer func() { recover() }()
+			hyps = append(hyps, ce.evalBool(e))
+		}()
+	}
+	for _, r := range c.Requires {
+		collect(r.Expr)
+	}
+	var alts []*Term
+	for m := c.Config.Lo; m <= c.Config.Hi; m++ {
+		mv := intVal(IntLit(int64(m)))
+		cem := ce.bind(c.Config.Var, mv)
+		conj := True()
+		for _, b := range c.Config.Bindings {
+			l := cem.eval(b.LHS)
+			r := cem.evalInt(b.RHS)
+			conj = And(conj, Eq(l.T, r))
+			if b.LHS.Op == "call" && b.LHS.Args[0].Op == "ident" && b.LHS.Args[0].Name == "len" {
+				mv := cem.eval(b.LHS.Args[1])
+				if mv.K == VMap {
+					if kt, _ := mapTypes(mv.Typ); isIntT(kt) {
+						for k := 0; k < m; k++ {
+							conj = And(conj, mapDom(st.heap, mv, IntLit(int64(k))))
+						}
+					}
+				}
+			}
+		}
+		alts = append(alts, conj)
+	}
+	x.hasCfg = save
+	o := &Obligation{Name: fname + "/config-cover:" + c.Config.Var, Func: fname, Kind: "config-cover", Hyps: append(append([]*Term{}, x.hyps...), hyps...),
+		Goal: Or(alts...), Note: "the precondition implies that one of the configurations " + fmt.Sprintf("%s=%d..%d", c.Config.Var, c.Config.Lo, c.Config.Hi) + " applies", Props: c.Props}
+	x.obls = append(x.obls, o)
 }
